@@ -23,6 +23,7 @@ pub fn replay(path: &str) -> i32 {
     let case = j.get("case").cloned().unwrap_or(J::Null);
     let kind = case.get("kind").and_then(|x| x.as_str()).unwrap_or("?").to_string();
     println!("replaying {prop} case kind={kind}");
+    *crate::util::PROCESS_INFO.lock().unwrap() = (prop.clone(), "replay".to_string());
     println!("stored detail: {}", j.get("detail").and_then(|x| x.as_str()).unwrap_or(""));
     let run: &'static Run = Box::leak(Box::new(Run::new(&prop, "quick", 0)));
     match kind.as_str() {
